@@ -446,3 +446,136 @@ Proof.
   - unfold tr_line2; cbn [fst snd]. rewrite !MK. reflexivity.
   - unfold tr_line2; cbn [fst snd]. rewrite !MK. reflexivity.
 Qed.
+
+(* ================================================================================================ *)
+(* (5) line joins                                                                                    *)
+(* ================================================================================================ *)
+
+Lemma translate_line_L a b d : L (padd a d) (padd b d) = translate_line (L a b) d.
+Proof. reflexivity. Qed.
+
+Lemma lj_start_translate s m w so d :
+  lj_start (padd s d) (padd m d) w so = option_map (tr_join d) (lj_start s m w so).
+Proof.
+  unfold lj_start. rewrite translate_line_L, extents_translate.
+  destruct (extents (L s m) w so) as [[l r]|]; reflexivity.
+Qed.
+
+Lemma lj_end_translate m e w so d :
+  lj_end (padd m d) (padd e d) w so = option_map (tr_join d) (lj_end m e w so).
+Proof.
+  unfold lj_end. rewrite translate_line_L, extents_translate.
+  destruct (extents (L m e) w so) as [[l r]|]; reflexivity.
+Qed.
+
+(* `fn intersections` uses the rounded point of an IntersectionParams only when nearly_colinear_has_error
+   is false; the saturating cast is therefore irrelevant when the check fires *)
+Definition isect_used_nosat (ip : iparams) : bool := nearly_colinear_has_error ip || isect_nosat ip.
+
+Definition used_point (ip : iparams) (fallback : point) : option (point * side) :=
+  match ip_intersection ip with
+  | IColinear => None
+  | IPoint p o => Some (if negb (nearly_colinear_has_error ip) then p else fallback, o)
+  end.
+
+Lemma intersections_used fl fr sl sr :
+  intersections fl fr sl sr =
+  match used_point (ip_from_lines sl fl) (l_end fl) with
+  | None => None
+  | Some (li, outer) =>
+      match used_point (ip_from_lines sr fr) (l_end fr) with
+      | None => None
+      | Some (ri, _) => Some (li, outer, ri)
+      end
+  end.
+Proof.
+  unfold intersections, used_point.
+  destruct (ip_intersection (ip_from_lines sl fl)); [|reflexivity].
+  destruct (ip_intersection (ip_from_lines sr fr)); reflexivity.
+Qed.
+
+Lemma used_point_translate l1 l2 fb d :
+  isect_used_nosat (ip_from_lines l1 l2) = true ->
+  isect_used_nosat (ip_from_lines (translate_line l1 d) (translate_line l2 d)) = true ->
+  used_point (ip_from_lines (translate_line l1 d) (translate_line l2 d)) (padd fb d) =
+  option_map (fun r => (padd (fst r) d, snd r)) (used_point (ip_from_lines l1 l2) fb).
+Proof.
+  unfold isect_used_nosat, used_point. rewrite nearly_colinear_translate.
+  destruct (nearly_colinear_has_error (ip_from_lines l1 l2)) eqn:Err; cbn [orb negb].
+  - (* the rounded point is discarded: only "colinear or not" and the outer side matter *)
+    intros _ _. unfold ip_intersection. rewrite ip_den_translate.
+    destruct (ip_den (ip_from_lines l1 l2) =? 0); reflexivity.
+  - intros H1 H2. rewrite (ip_intersection_translate _ _ _ H1 H2).
+    destruct (ip_intersection (ip_from_lines l1 l2)); reflexivity.
+Qed.
+
+Definition tr_isects (d : point) (r : point * side * point) : point * side * point :=
+  (padd (fst (fst r)) d, snd (fst r), padd (snd r) d).
+
+(* no cast is reached by a used point, for the left and for the right pair of edges *)
+Definition edges_nosat (fl fr sl sr : line) : bool :=
+  isect_used_nosat (ip_from_lines sl fl) && isect_used_nosat (ip_from_lines sr fr).
+
+Lemma intersections_translate fl fr sl sr d :
+  edges_nosat fl fr sl sr = true ->
+  edges_nosat (translate_line fl d) (translate_line fr d) (translate_line sl d) (translate_line sr d) = true ->
+  intersections (translate_line fl d) (translate_line fr d) (translate_line sl d) (translate_line sr d) =
+  option_map (tr_isects d) (intersections fl fr sl sr).
+Proof.
+  unfold edges_nosat. intros H1 H2.
+  apply andb_true_iff in H1 as [L1 R1]. apply andb_true_iff in H2 as [L2 R2].
+  rewrite !intersections_used.
+  change (l_end (translate_line fl d)) with (padd (l_end fl) d).
+  change (l_end (translate_line fr d)) with (padd (l_end fr) d).
+  rewrite (used_point_translate _ _ _ _ L1 L2), (used_point_translate _ _ _ _ R1 R2).
+  destruct (used_point (ip_from_lines sl fl) (l_end fl)) as [[li o]|]; [|reflexivity].
+  destruct (used_point (ip_from_lines sr fr) (l_end fr)) as [[ri o']|]; reflexivity.
+Qed.
+
+(* LineJoin::from_points after the four extents have been computed *)
+Lemma lj_from_extents_translate mid w fl fr sl sr d :
+  edges_nosat fl fr sl sr = true ->
+  edges_nosat (translate_line fl d) (translate_line fr d) (translate_line sl d) (translate_line sr d) = true ->
+  lj_from_extents (padd mid d) w (translate_line fl d) (translate_line fr d) (translate_line sl d) (translate_line sr d) =
+  tr_join d (lj_from_extents mid w fl fr sl sr).
+Proof.
+  intros H1 H2. unfold lj_from_extents. rewrite (intersections_translate _ _ _ _ _ H1 H2).
+  destruct (intersections fl fr sl sr) as [[[li o] ri]|]; [|reflexivity].
+  cbn [option_map tr_isects fst snd].
+  change (l_end (translate_line sl d)) with (padd (l_end sl) d).
+  change (l_end (translate_line sr d)) with (padd (l_end sr) d).
+  rewrite !le_check_side_translate.
+  assert (MD : psub (match o with SLeft => padd li d | SRight => padd ri d end) (padd mid d) =
+               psub (match o with SLeft => li | SRight => ri end) mid)
+    by (destruct o; apply psub_padd_padd).
+  rewrite MD.
+  destruct o.
+  - destruct (negb (le_check_side (le_from_line fr) (l_end sr) SLeft)); [|reflexivity].
+    destruct (_ <=? _); reflexivity.
+  - destruct (negb (le_check_side (le_from_line fl) (l_end sl) SRight)); [|reflexivity].
+    destruct (_ <=? _); reflexivity.
+Qed.
+
+(* the no-saturation hypothesis of LineJoin::from_points, read off the model: for both pairs of thick-line
+   edges, the rounded intersection fits an i32 whenever it is used *)
+Definition join_nosat (start mid end_ : point) (w : Z) (so : stroke_offset) : bool :=
+  match extents (L start mid) w so, extents (L mid end_) w so with
+  | Some (fl, fr), Some (sl, sr) => edges_nosat fl fr sl sr
+  | _, _ => true
+  end.
+
+Lemma lj_from_points_translate s m e w so d :
+  join_nosat s m e w so = true ->
+  join_nosat (padd s d) (padd m d) (padd e d) w so = true ->
+  lj_from_points (padd s d) (padd m d) (padd e d) w so = option_map (tr_join d) (lj_from_points s m e w so).
+Proof.
+  unfold join_nosat, lj_from_points. rewrite !translate_line_L, !extents_translate.
+  destruct (extents (L s m) w so) as [[fl fr]|]; [|reflexivity].
+  destruct (extents (L m e) w so) as [[sl sr]|]; [|reflexivity].
+  cbn [option_map tr_line2 fst snd]. intros H1 H2. f_equal.
+  apply lj_from_extents_translate; assumption.
+Qed.
+
+(* the join kind does not change, every corner moves by d *)
+Lemma tr_join_kind d j : lj_kind (tr_join d j) = lj_kind j.
+Proof. reflexivity. Qed.
